@@ -57,6 +57,8 @@ pub enum Ev {
     Mapping { key: usize, value: usize },
     DynArray { element: usize },
     FixedArray { element: usize, length: u64 },
+    /// A fixed array whose length is `hi * 2^64 + lo`.
+    FixedArrayBig { element: usize, hi: u64, lo: u64 },
     Packed { spans: Vec<(usize, usize, usize)>, is_struct: bool },
     /// A ready-made conflict (of two incompatible words).
     Conflict,
@@ -82,6 +84,7 @@ impl Ev {
             Ev::Mapping { key, value } => format!("Mapping(v{key},v{value})"),
             Ev::DynArray { element } => format!("DynArray(v{element})"),
             Ev::FixedArray { element, length } => format!("FixedArray(v{element})[{length}]"),
+            Ev::FixedArrayBig { element, hi, lo } => format!("FixedArray(v{element})[{hi}*2^64+{lo}]"),
             Ev::Packed { spans, is_struct } => format!(
                 "{}[{}]",
                 if *is_struct { "Struct" } else { "Packed" },
@@ -96,7 +99,7 @@ impl Ev {
     pub fn vars(&self) -> Vec<usize> {
         match self {
             Ev::Mapping { key, value } => vec![*key, *value],
-            Ev::DynArray { element } | Ev::FixedArray { element, .. } => vec![*element],
+            Ev::DynArray { element } | Ev::FixedArray { element, .. } | Ev::FixedArrayBig { element, .. } => vec![*element],
             Ev::Packed { spans, .. } => spans.iter().map(|s| s.0).collect(),
             Ev::Equal { other } => vec![*other],
             _ => vec![],
@@ -114,6 +117,11 @@ impl Ev {
             Ev::FixedArray { element, length } => Ev::FixedArray {
                 element: f(*element),
                 length:  *length,
+            },
+            Ev::FixedArrayBig { element, hi, lo } => Ev::FixedArrayBig {
+                element: f(*element),
+                hi:      *hi,
+                lo:      *lo,
             },
             Ev::Packed { spans, is_struct } => Ev::Packed {
                 spans:     spans.iter().map(|(v, o, s)| (f(*v), *o, *s)).collect(),
@@ -134,6 +142,10 @@ impl Ev {
             Ev::FixedArray { element, length } => TE::FixedArray {
                 element: vars[*element],
                 length:  U256::from(*length),
+            },
+            Ev::FixedArrayBig { element, hi, lo } => TE::FixedArray {
+                element: vars[*element],
+                length:  (U256::from(*hi) << 64) + U256::from(*lo),
             },
             Ev::Packed { spans, is_struct } => TE::Packed {
                 types:     spans.iter().map(|(v, o, s)| Span::new(vars[*v], *o, *s)).collect(),
